@@ -15,6 +15,8 @@ CONSTANTS NameCat,    \* Seq([id, pre, preDitto, lines, nlen, b])
           MetaCat,    \* Seq([len, lines: Seq([k, v, sep])])
           WFItems,    \* set of item sequences <<[n, v], ...>> for the well-formed family
           WFMetas,    \* metadata indices combined with every WFItems element
+          MetaItems,  \* a few item sequences ...
+          MetaAll,    \* ... combined with every well-formed metadata shape
           BadBases,   \* set of [mi, items] the corruptions are applied to
           Damage,     \* set of corruptions [t, i, x]
           PairBases   \* the bases that also get every pair of corruptions
@@ -64,7 +66,7 @@ Applies(c, d) ==
     CASE d.t \in {"next", "nlen"} -> d.i \in DOMAIN c.recs
       [] d.t = "head"             -> d.i \in DOMAIN c.recs
       [] d.t = "swapheads"        -> Len(c.heads) >= 2
-      [] d.t = "limit"            -> d.x \in {"beyond", "odd", "zero-empty"} \/ Len(c.recs) > 0
+      [] d.t = "limit"            -> d.x \in {"beyond", "odd", "zero-empty", "reserved"} \/ Len(c.recs) > 0
       [] OTHER                    -> TRUE
 Apply(c, d) ==
     CASE d.t = "size"   -> [c EXCEPT !.size = CASE d.x = "empty" -> 0 [] d.x = "short" -> 100 [] d.x = "pagem1" -> Page - 1
@@ -78,12 +80,17 @@ Apply(c, d) ==
       [] d.t = "limit"  -> [c EXCEPT !.limit = CASE d.x = "zero" -> 0 [] d.x = "zero-empty" -> 0
                                                   [] d.x = "intable" -> c.h0 + 64
                                                   [] d.x = "low" -> c.limit - Unit [] d.x = "odd" -> c.limit + 1
-                                                  [] d.x = "beyond" -> c.size + Unit [] d.x = "huge" -> Huge]
+                                                  [] d.x = "beyond" -> c.size + Unit [] d.x = "huge" -> Huge
+                                                  \* space reserved above the last record (a writer that died before linking): still well-formed
+                                                  [] d.x = "reserved" -> (IF c.limit = 0 THEN Up(FirstRec(c.h0), Unit) ELSE c.limit) + 2 * Unit]
       [] d.t = "next"   -> [c EXCEPT !.recs[d.i].next = Target(c, d.i, d.x)]
       [] d.t = "head"   -> [c EXCEPT !.heads[HeadIdx(c, d.i)].off = Target(c, d.i, d.x)]
-      [] d.t = "nlen"   -> [c EXCEPT !.recs[d.i].nlen = CASE d.x = "zero" -> 0 [] d.x = "over" -> MaxName + 1
-                                                             [] d.x = "beyond" -> c.size [] d.x = "max24" -> 16777215,
-                                      !.recs[d.i].ok = (d.x = "over" /\ c.recs[d.i].off + RecHdr + MaxName + 1 <= c.size)]
+      [] d.t = "nlen"   -> LET nl == CASE d.x = "zero" -> 0 [] d.x = "over" -> MaxName + 1
+                                         [] d.x = "beyond" -> c.size [] d.x = "max24" -> 16777215
+                                         [] d.x = "tofileend" -> c.size - c.recs[d.i].off - RecHdr          \* the name ends with the file
+                                         [] d.x = "tofileend1" -> c.size - c.recs[d.i].off - RecHdr + 1     \* one byte too many
+                           IN [c EXCEPT !.recs[d.i].nlen = nl,
+                                        !.recs[d.i].ok = (nl >= 1 /\ c.recs[d.i].off + RecHdr + nl <= c.size)]
       [] d.t = "swapheads" -> [c EXCEPT !.heads[1].b = c.heads[2].b, !.heads[2].b = c.heads[1].b]
       [] d.t = "none"   -> c
 Hurt(c) == [c EXCEPT !.fam = "damaged"]
@@ -91,7 +98,7 @@ Fitting(c) == {d \in Damage : Applies(c, d)}
 Damaged  == UNION {{Apply(Hurt(Base(bb.mi, bb.items)), d) : d \in Fitting(Base(bb.mi, bb.items))} : bb \in BadBases}
 Twice(c) == UNION {{Apply(Apply(c, d1), d2) : d2 \in {d \in Fitting(Apply(c, d1)) : d.t # d1.t}} : d1 \in Fitting(c)}
 Damaged2 == UNION {Twice(Hurt(Base(bb.mi, bb.items))) : bb \in PairBases}
-Sound == {Base(mi, it) : mi \in WFMetas, it \in WFItems}
+Sound == {Base(mi, it) : mi \in WFMetas, it \in WFItems} \cup {Base(mi, it) : mi \in MetaAll, it \in MetaItems}
 
 (* expectation in compact form: names as catalogue indices *)
 ExpOf(c) == LET f == Expand(c)  e == ParseResult(f) IN
